@@ -50,6 +50,24 @@ def hostile_names(r, env, rts):
     return [(mapping[k], map_rt(f, b)) for k, b in env], [map_rt(f, x) for x in rts]
 
 
+def stretched(v, spoil):
+    """v with its first non-empty array (at the top, or one or two levels down) stretched to twelve items by repeating its
+    elements; with `spoil` the last item is replaced by a value of another kind (a wrong element beyond the tenth position)"""
+    done = [False]
+    def go(x, depth):
+        if done[0] or depth > 2: return x
+        if x[0] == "arr" and x[1]:
+            done[0] = True
+            items = [x[1][i % len(x[1])] for i in range(12)]
+            if spoil: items[11] = ("n",) if items[11][0] not in ("n", "u") else ("s", "z")
+            return ("arr", items)
+        if x[0] == "arr": return x
+        if x[0] == "obj": return ("obj", [(k, go(y, depth + 1)) for k, y in x[1]])
+        return x
+    w = go(v, 0)
+    return w if done[0] else None
+
+
 def gen_cases(seed, n_rts, n_vals, depth=3, strict=False, schemaable=0.0):
     g = gen.Gen(seed, schemaable)
     rn = __import__("random").Random(seed + 77)
@@ -59,6 +77,13 @@ def gen_cases(seed, n_rts, n_vals, depth=3, strict=False, schemaable=0.0):
         if env and rn.random() < 0.2:
             env, (rt,) = hostile_names(rn, env, [rt])
         vals = [v for v in g.values_for(rt, env, n_vals, strict=strict) if not gen.has_bad_keys(v)]
+        if vals and i % 4 == 1:
+            # containers longer than ten items, clean and with a wrong last item (loops that stop early)
+            for v in list(vals):
+                long = [w for w in (stretched(v, False), stretched(v, True)) if w is not None]
+                if long:
+                    vals += long
+                    break
         if vals:
             cases.append({"env": env, "rt": rt, "vals": vals, "source": "gen"})
     return cases
